@@ -2,7 +2,7 @@
 import copy
 
 from vrt import glue
-from vrt.ob import define, obligation
+from vrt.ob import define, obligation, concretize
 import cpppo
 
 glue.activate(cpppo.dotdict)
@@ -313,3 +313,29 @@ def reserved_and_indexed(which: int, i: int, v: int) -> bool:
     ok = ok and ('l[%d].y.z' % i) in d and d['l[%d].y.z' % i] == v and d['l[%d].w' % i] == 4
     ok = ok and ('l[%d].y.z' % i) in list(d.keys()) and ('l[%d].y..w' % i) in d
     return ok
+
+
+# ---- index EXPRESSIONS naming peer values (`chan[a.b.c].v`, `chan[a.b-1].v`): the dots inside the brackets do not split the path -----------------
+PEER = ['i', 'a.b', 'a.c.d', 'p.q.r.s']            # 0..3 dots inside the index expression
+
+
+def do_peer_index(depth, i, v, arith):
+    depth = concretize(depth, len(PEER))
+    d = dotdict()
+    d.chan = [dotdict(v=10), dotdict(v=11), dotdict(w=dotdict(x=12))]
+    d[PEER[depth]] = i + (1 if arith else 0)
+    expr = PEER[depth] + ('-1' if arith else '')
+    leaf = 'v' if i < 2 else 'w.x'
+    key = 'chan[%s].%s' % (expr, leaf)
+    ok = key in d and d[key] == 10 + i and d.get(key) == 10 + i
+    d[key] = v                                      # assignment through the same path reaches the same element
+    ok = ok and d.chan[i][leaf] == v and d[key] == v
+    ok = ok and ('chan[%s].zz' % expr) not in d
+    return ok and ('chan[%d].%s' % (i, leaf)) in list(d.keys())
+
+
+define(globals(), 'C16', 'indexed_by_peer_expression', ['depth', 'i', 'v', ('arith', 'bool')], "return do_peer_index(depth, i, v, arith)",
+       ['0 <= depth <= 3 and 0 <= i <= 2 and -9 <= v <= 9'], timeout=900, path_timeout=60, drives=DRIVES,
+       bounds='list-of-mappings element addressed by an index EXPRESSION that names a peer value through 0..3 dots (`chan[p.q.r.s].v`), optionally with '
+              'arithmetic (`chan[a.b-1].v`): lookup / in / get / assignment reach element i (symbolic 0..2), key iteration lists it in literal form',
+       outside='other expressions; nested brackets')
